@@ -73,7 +73,7 @@ FIELD = [
 ]
 
 UNIT = Unit(
-    name='opt_python', props=['C04', 'C07'], pre_verus=O.PRE_VERUS, spec_files=['std_slices.rs', 'typexpr.rs', 'txt.rs', 'optmark.rs'], prelude=PRELUDE,
+    name='opt_python', props=['C04', 'C07'], pre_verus=O.PRE_VERUS, spec_files=['std_slices.rs', 'seqjoin.rs', 'typexpr.rs', 'txt.rs', 'optmark.rs'], prelude=PRELUDE,
     items=O.base_items('Python', SRC) + [
         Item('struct_CustomJsonTranslationFunctions', SRC, ['struct CustomJsonTranslationFunctions']),
         Item('write_field', SRC, ['impl Python {', 'fn write_field'], FIELD, wrap=('impl Python {\n', '\n}\n'),
